@@ -256,6 +256,12 @@ func c14StmtCtxs() []c14Ctx {
 		{"put ('a', 'b'), ('k', {})", 0, "BLJ", false, 0},
 		{"remove {}", 0, "BLJ", false, 0},
 		{"remove 'a', {}", 0, "BLJ", false, 0},
+		// the faulty item ahead of well-typed ones (every item is checked, not the last one only)
+		{"remove {}, 'a'", 0, "BLJ", false, 0},
+		{"remove 'b', {}, 'a'", 0, "BLJ", false, 0},
+		{"put ({}, 'v'), ('a', 'b')", 0, "BLJ", false, 0},
+		{"put ('k', {}), ('a', 'b')", 0, "BLJ", false, 0},
+		{"put ('a', 'b'), ('k', {}), ('c', 'd')", 0, "BLJ", false, 0},
 	}
 }
 
@@ -265,6 +271,7 @@ func c14KeywordFaults() []c14Case {
 	for _, q := range []string{
 		"put ('a', value)", "put ('a', upper('x' + value))", "put (value, 'a')", "put ('a', 'b'), ('c', strlen(value))", "put ('a', str(strlen(key) + strlen(value)))",
 		"remove key", "remove value", "remove 'a', key", "remove upper(key)", "remove 'a' + key", "remove str(strlen(value))", "remove 'a', 'b' + upper(value)",
+		"remove key, 'a'", "remove value + 'x', 'a'", "remove 'b', key, 'a'", "put ('a', value), ('b', 'c')", "put (value, 'a'), ('b', 'c')",
 	} {
 		out = append(out, c14Case{Stmt: q, Mutant: true, Fault: "forbidden key/value keyword"})
 	}
